@@ -14,22 +14,11 @@
 (* f is a variadic closure with an effect, g reads the global x whatever   *)
 (* the caller's local x is (lexical, not dynamic, scoping).                *)
 (***************************************************************************)
-EXTENDS Def, Enum, Json, Randomization
+EXTENDS C01Grammar, Json, Randomization
 
 CONSTANTS MaxSize,    \* exhaustive: all programs of 1..MaxSize nodes
           SampleSize, \* sampled: programs of SampleSize nodes ...
           SampleN     \* ... this many of them (0 = none)
-
-CtxText == "(def x 10) (def f (fn [x & y] (trace! (list :f x y)) (if x (first y) y))) (def g (fn [] x))"
-CtxForms == ReadAll(CtxText)
-
-G == Grammar(
-  <<"0", "1", "nil", "false", "\"\"", "()", "x", "y", "(g)", "(do)">>,
-  <<"(trace! _1)", "(def x _1)", "(def y _1)", "(quote _1)", "(f _1)", "(fn [y] _1)", "((fn [] _1))">>,
-  <<"(if _1 _2)", "(do _1 _2)", "(let [x _1] _2)", "(let [y _1] _2)", "((fn [y] _2) _1)",
-    "((fn [& y] _2) _1)", "(+ _1 _2)", "(list _1 _2)", "(f _1 _2)", "(_1 _2)">>,
-  <<"(if _1 _2 _3)", "(let [x _1 y _2] _3)", "(let [x _1] _2 _3)", "((fn [x y] _3) _1 _2)",
-    "((fn [x & y] _3) _1 _2)">>)
 
 NMax == IF SampleSize > MaxSize THEN SampleSize ELSE MaxSize
 ASSUME InitRegisters
